@@ -60,7 +60,7 @@ let run (path : String.t) =
       polls := !polls + List.length (List.filter (fun e -> e = EBegin) evs);
       let (cnt, st) = run_count init evs O in
       let cnt = int_of_nat cnt in
-      let st = settled st in
+      let st = (match settled st with Some s -> s | None -> st) in
       let accepted = (cnt = List.length evs) in
       let corr = accepted && not (panicked st) && !special = None in
       let viol = ref [] in
